@@ -39,6 +39,8 @@ let tkind_of = function
   | "LambdaArgBeginEnd" -> KLambdaBar | "Comma" -> KComma | "If" -> KIf | "Else" -> KElse
   | "BlockBegin" -> KBlockBegin | "BlockEnd" -> KBlockEnd | "ParenBegin" -> KParenBegin | "ParenEnd" -> KParenEnd
   | "ArrayBegin" -> KArrayBegin | "ArrayEnd" -> KArrayEnd
+  | "Ident" | "IdentFunction" | "IdentVariable" -> KIdent
+  | "MacroExpand" -> KMacroExpand | "LeftArrow" -> KLeftArrow | "DoubleColon" -> KDoubleColon
   | _ -> KOther
 
 let skind_of = function
@@ -48,6 +50,7 @@ let skind_of = function
   | "TupleExpr" | "ArrayExpr" | "ParamList" | "ArgList" | "TuplePattern" | "RecordPattern" -> SGroupedList false
   | "TupleType" | "RecordType" -> SGroupedList true
   | "ParenExpr" -> SParenExpr
+  | "RecordExpr" -> SRecordExpr | "MacroExpansion" -> SMacroExpansion | "QualifiedPath" -> SQualifiedPath
   | "IntLiteral" | "FloatLiteral" | "StringLiteral" | "SelfLiteral" | "NowLiteral" | "SampleRateLiteral"
   | "PlaceHolderLiteral" | "Identifier" | "FieldAccess" | "IndexExpr" | "TypeAnnotation" | "Pattern" | "SinglePattern"
   | "ParamDefault" | "ExprList" | "EscapeExpr" | "BracketExpr" | "UnionType" | "IncludeStmt" | "StageDecl" -> SLeaf false
